@@ -137,6 +137,62 @@ def _genname_one(item):
     return item, "pkg", probs
 
 
+def _extpair_one(item):
+    """Two external modules in one design: same / different names, domains, port lists; used at the top and below it."""
+    import hdl21 as h
+
+    samename, samedomain, deep, viaarray = item
+    try:
+        e1 = h.ExternalModule(name="res", domain="pdk_a", port_list=[h.Port(name="p"), h.Port(name="n")], paramtype=dict)
+        e2 = h.ExternalModule(name="res" if samename else "res2", domain="pdk_a" if samedomain else "pdk_b",
+                              port_list=[h.Port(name="p"), h.Port(name="n"), h.Port(name="b")], paramtype=dict)
+        inner = h.Module(name="ExtInner")
+        inner.x, inner.y = h.Port(), h.Port()
+        inner.u = e2(dict(k=2))(p=inner.x, n=inner.y, b=inner.y)
+        top = h.Module(name="ExtTop")
+        top.a, top.c = h.Signal(), h.Signal()
+        if viaarray:
+            top.u1 = h.InstanceArray(of=e1(dict(k=1)), n=2)(p=top.a, n=top.c)
+        else:
+            top.u1 = e1(dict(k=1))(p=top.a, n=top.c)
+        if deep:
+            top.i = inner(x=top.a, y=top.c)
+        else:
+            top.u2 = e2(dict(k=2))(p=top.a, n=top.c, b=top.c)
+        pkg = h.to_proto(top)
+    except Exception as e:
+        return item, "raised:" + short_exc(e), None
+    probs = wfmod.wf(pkg)
+    if not probs:
+        probs = [p for p in wfmod.accepts(pkg, netlist=not samename) if True]
+    return item, "pkg", probs
+
+
+def _mutant_one(item):
+    """Single-fault mutants of family designs (the C02 corpus): whatever to_proto returns for them must still be well formed."""
+    import hdl21 as h
+    from ..build import build
+    from .. import mutate, refsem
+
+    fname, desc = item
+    mod = importlib.import_module(f"hv.families.{fname}")
+    fam, design = mod.design(desc)
+    out = []
+    try:
+        refsem.R(design)
+    except Exception:
+        return fam, out
+    for cls, site, d2, reasons in mutate.mutants(design)[::3]:
+        try:
+            pkg = h.to_proto(build(d2).top)
+        except Exception:
+            out.append((cls, "raised", None, None))
+            continue
+        probs = wfmod.wf(pkg)
+        out.append((cls, "pkg", probs[:3], d2 if probs else None))
+    return fam, out
+
+
 def _pdk_one(item):
     """A small design of generic primitives compiled to a PDK, then exported."""
     import hdl21 as h
@@ -220,6 +276,31 @@ def run(ctx):
                 ctx.outcome(status.split(":")[0] + ":genname:" + ptype)
                 if status == "pkg" and probs:
                     ctx.violation(dict(corpus="generated_names", ptype=ptype, problem=classify(probs[0])), dict(item=[ptype, va, vb]), probs[:5])
+    # (c3) pairs of external modules
+    import itertools as _it
+    for item in _it.product((True, False), (True, False), (True, False), (True, False)):
+        it, status, probs = _extpair_one(item)
+        ctx.count(states=1, transitions=2, traces_validated_against_impl=1)
+        ctx.fam("external_module_pairs", **{("pkg" if status == "pkg" else "raised"): 1})
+        ctx.outcome(status.split(":")[0] + ":extpair")
+        if status == "pkg" and probs:
+            ctx.violation(dict(corpus="external_pairs", problem=classify(probs[0])), dict(extpair=list(item)), probs[:5])
+    # (c4) single-fault mutants: ill-formed designs normally raise; anything returned must be well formed
+    mitems = []
+    for fname, stride in (("f1_expr", 60), ("f2_portrefs", 900), ("f4_bundles", 12), ("f5_arrays", 40), ("f7_hier", 400)):
+        its = importlib.import_module(f"hv.families.{fname}").items("quick")
+        if not ctx.quick:
+            stride = max(1, stride // 4)
+        mitems += [(fname, d) for d in its[ctx.seed % stride :: stride]]
+    res = ctx.pmap(_mutant_one, mitems, chunk=2)
+    for (fname, desc), (fam, out) in zip(mitems, res):
+        for cls, status, probs, d2 in out:
+            ctx.count(states=1, transitions=2, traces_validated_against_impl=1)
+            ctx.fam("single_fault_mutants", **{status: 1})
+            if status == "pkg":
+                ctx.outcome(("ill" if probs else "wf") + ":mutant:" + cls)
+                if probs:
+                    ctx.violation(dict(corpus="mutants", fault=cls, problem=classify(probs[0])), dict(family=fam, fault=cls, design=d2), probs)
     # (d) PDK-compiled designs
     for item in [(p, w) for p in ("hdl21.pdk.sample_pdk", "sky130_hdl21", "gf180_hdl21", "asap7_hdl21") for w in ("nmos", "pmos")]:
         it, status, probs = _pdk_one(item)
@@ -252,6 +333,8 @@ def replay(body):
     elif "example" in c:
         _, _, out = _example_one(c["example"])
         probs = [p for (_k, _n, ps) in out for p in ps]
+    elif "extpair" in c:
+        probs = _extpair_one(tuple(c["extpair"]))[2]
     elif c["item"][0] in ("float", "str", "int"):
         probs = _genname_one(tuple(c["item"]))[2]
     else:
